@@ -122,7 +122,7 @@ open Sq.Inv in
     looks up (`lookupOf`) is in `S` -/
 theorem lookups_are_mentioned (S : Name → Prop) (w : World) (bs : List Nat) (namesAddr budget : Nat) (tree : Op)
     (astNames : List (Name × Op))
-    (hw : WorldNPg (fun _ body _ => MentionsIn S body) (fun _ => True) (fun _ => True) w)
+    (hw : WorldNPg (fun _ body _ => MentionsIn S body) (fun _ => True) (fun _ => True) (fun _ => True) w)
     (ht : MentionsIn S tree) (ha : ∀ p, p ∈ astNames → MentionsIn S p.2) (i : Nat) (n : Name)
     (hl : lookupOf (run i (initCfg w bs namesAddr budget tree astNames)).core = some n) : S n :=
   run_lookups_in S _ (init_names_inv S w bs namesAddr budget tree astNames hw ht ha) i n hl
@@ -135,7 +135,7 @@ open Sq.Inv in
 theorem evaluation_looks_up_only_listed_names (s : Session) (src : List Char) (ts : List Token) (st' : LexSt)
     (hlex : lexFrom LexSt.init src = .ok (ts, st')) (tree : Op) (hp : parseTokens ts = .ok tree)
     (w : World) (bs : List Nat) (namesAddr budget : Nat)
-    (hw : WorldNPg (fun _ _ _ => False) (fun _ => True) (fun _ => True) w) (i : Nat) (n : Name)
+    (hw : WorldNPg (fun _ _ _ => False) (fun _ => True) (fun _ => True) (fun _ => True) w) (i : Nat) (n : Name)
     (hl : lookupOf (run i (initCfg w bs namesAddr budget tree)).core = some n) :
     n ∈ (listNamesCall s src none).1.1 ∨ n ∈ implicitNameList := by
   refine lookups_are_mentioned (fun x => x ∈ (listNamesCall s src none).1.1 ∨ x ∈ implicitNameList) w bs namesAddr budget
@@ -149,15 +149,15 @@ example (n : Name) (vmi : Nat) (k : List Frame) (w : World) :
 
 open Sq.Inv in
 /-- non-vacuity: a host world binding `x` to a list of numbers and strings satisfies the hypothesis -/
-example : WorldNPg (fun _ _ _ => False) (fun _ => True) (fun _ => True)
+example : WorldNPg (fun _ _ _ => False) (fun _ => True) (fun _ => True) (fun _ => True)
     { heap := #[.dict [(.str ['x'], .ref 1)], .list [.int 1, .str ['a']]], vms := [], log := [], rng := 0, rx := [],
       probes := [] } := by
-  refine ⟨?_, fun a h => (by cases h), fun p h => (by cases h)⟩
+  refine ⟨⟨?_, fun _ _ => trivial⟩, fun a h => (by cases h), fun p h => (by cases h)⟩
   intro a o hg
   match a with
   | 0 =>
     simp [Heap.get?] at hg; subst hg
-    intro kv hkv; simp at hkv; subst hkv; exact ⟨.str, .ref⟩
+    intro kv hkv; simp at hkv; subst hkv; exact ⟨.str, .ref trivial⟩
   | 1 =>
     simp [Heap.get?] at hg; subst hg
     intro v hv; simp at hv; rcases hv with e | e <;> subst e
